@@ -175,3 +175,15 @@ Arguments mkSs {T}. Arguments file_index {T}. Arguments pr {T}. Arguments tree {
 Arguments eval_docs {P R T}. Arguments eval_file {P R T}. Arguments eval_files {P R T}.
 Arguments eval_new {P R T}. Arguments run_seq_blocks {P R T}. Arguments run_seq {P R T}.
 Arguments stamp_together {P}. Arguments read_all {P}. Arguments run_all {P R T}.
+
+(* sortOperator assigns expressionNode.RHS (a self-reference node) on the
+   shared parsed tree and then runs sortByOperator, which reads
+   expressionNode.RHS.  Tree state = the RHS slot of the sort node. *)
+Section SortTree.
+Variables P R E : Type.
+Variable self : E.                                   (* ExpressionNode of selfReferenceOpType *)
+Variable sort_by : option E -> list (sdoc P) -> option (list (res R)).   (* sortByOperator, reading RHS *)
+Definition sort_ev (rhs : option E) (ds : list (sdoc P)) : option (list (res R)) * option E :=
+  let rhs' := Some self in (sort_by rhs' ds, rhs').
+End SortTree.
+Arguments sort_ev {P R E}.
